@@ -22,7 +22,7 @@ CHECKS['C06'] = {'technique': MS + '; lemma chain; handler-mode trace queries', 
     'note': _H + ' Magnitude bounds stated in the evidence (dt <= 10y, fees <= 1, base <= 10, A,L < 2^64).'}
 CHECKS['C08'] = {'technique': MS + ' applied to the Anchor-generated try_accounts code of every instruction', 'engine': 'mirsym',
     'text': 'Bounded symbolic verification: is_signer_authorized / account_not_frozen_for_authority truth tables for all flag words; for each of the 78 #[derive(Accounts)] structs the acceptance condition of the generated constraint code (predicates inlined from MIR, PDAs as uninterpreted functions of their seeds) is shown to imply (a) the reference constraint set, (b) has_one=group on every bank/account, (c) vault binding to the bank, (d) the signer rule of the role the instruction names.',
-    'note': _H + ' Two integration structs (DriftHarvestReward, SolendInitObligation) are not encodable (symbolic index into a lazy array) and are reported as not decided.'}
+    'note': _H + ' All 78 instruction structs are decided (DriftHarvestReward with the Drift has_admin_deposit scan kept as an opaque predicate).'}
 CHECKS['C13'] = {'technique': MS + '; assume/guarantee for calculate_max_leverage', 'engine': 'mirsym',
     'text': 'Bounded symbolic verification of BankConfig::validate, calculate_max_leverage (exact contract, monotone) and validate_entries_with_liability_weights (10 entries unrolled; sliced by which entries are non-empty: all singletons + pairs).',
     'note': _H + ' Write-path wiring (C13.d) and check_dupes are separate obligations; uniqueness of tags relies on sorted entries.'}
